@@ -402,7 +402,10 @@ fn err_name(e: &coupe::Error) -> String {
     }
 }
 
-fn run_impl(c: &Case) -> (Ran, Sweeps) {
+/// Runs the implementation on `c`.  With `reuse`, the SAME algorithm value is first used on another
+/// input (same weights / graph / points, the id array reversed) and then on `c`; what is returned
+/// (ids, metadata, recorded sweeps) belongs to the second call.
+fn run_impl(c: &Case, reuse: bool) -> (Ran, Sweeps) {
     let c = c.clone();
     let rec: Arc<Mutex<Sweeps>> = Arc::new(Mutex::new(Vec::new()));
     let is_kmeans = matches!(c, Case::KMeans { .. });
@@ -410,15 +413,15 @@ fn run_impl(c: &Case) -> (Ran, Sweeps) {
         let rec2 = rec.clone();
         coupe::verif_hooks::set_kmeans_observer(Some(Box::new(move |a: &[usize], cids: &[usize]| {
             if let Ok(mut g) = rec2.lock() {
-                if g.len() < 20_000 {
+                if g.len() < 20_000 && g.len() * a.len() < 60_000_000 {
                     g.push((a.to_vec(), cids.to_vec()));
                 }
             }
         })));
     }
+    let rec3 = rec.clone();
     type R = (Result<Option<(Vec<usize>, Vec<usize>)>, String>, Vec<usize>);
-    // the property's watchdog is 20 s; `C02_WATCHDOG` only serves to tell a slow run from a hang when
-    // a finding is examined by hand
+    // `C02_WATCHDOG` only serves to tell a slow run from a hang when a finding is examined by hand
     let secs = std::env::var("C02_WATCHDOG").ok().and_then(|v| v.parse().ok()).unwrap_or(60u64);
     let res: Caught<R> = catch_timeout(secs, move || {
         let threads = match &c {
@@ -430,47 +433,66 @@ fn run_impl(c: &Case) -> (Ran, Sweeps) {
         };
         let p = pool(threads);
         p.install(move || -> R {
+            // the warm-up input of a reuse case
+            let mut ids_a: Vec<usize> = c.ids().iter().rev().copied().collect();
+            let forget = || {
+                if let Ok(mut g) = rec3.lock() {
+                    g.clear();
+                }
+            };
             match c {
                 Case::Vn { best, ty, ws, ids, .. } => {
                     let mut ids = ids;
-                    let r = match ty.as_str() {
-                        "i64" => {
-                            if best {
-                                coupe::VnBest.partition(&mut ids, ws.iter().cloned())
-                            } else {
-                                coupe::VnFirst.partition(&mut ids, &ws[..])
+                    let wu: Vec<u64> = ws.iter().map(|&x| x as u64).collect();
+                    let wf: Vec<f64> = ws.iter().map(|&x| x as f64).collect();
+                    let vb = coupe::VnBest;
+                    let vf = coupe::VnFirst;
+                    let mut call = |ids: &mut Vec<usize>| {
+                        let (mut vb, mut vf) = (vb, vf);
+                        match ty.as_str() {
+                            "i64" => {
+                                if best {
+                                    vb.partition(ids, ws.iter().cloned())
+                                } else {
+                                    vf.partition(ids, &ws[..])
+                                }
                             }
-                        }
-                        "u64" => {
-                            let w: Vec<u64> = ws.iter().map(|&x| x as u64).collect();
-                            if best {
-                                coupe::VnBest.partition(&mut ids, w)
-                            } else {
-                                coupe::VnFirst.partition(&mut ids, &w[..])
+                            "u64" => {
+                                if best {
+                                    vb.partition(ids, wu.iter().cloned())
+                                } else {
+                                    vf.partition(ids, &wu[..])
+                                }
                             }
-                        }
-                        _ => {
-                            let w: Vec<f64> = ws.iter().map(|&x| x as f64).collect();
-                            if best {
-                                coupe::VnBest.partition(&mut ids, w)
-                            } else {
-                                coupe::VnFirst.partition(&mut ids, &w[..])
+                            _ => {
+                                if best {
+                                    vb.partition(ids, wf.iter().cloned())
+                                } else {
+                                    vf.partition(ids, &wf[..])
+                                }
                             }
                         }
                     };
+                    if reuse {
+                        let _ = call(&mut ids_a);
+                    }
+                    let r = call(&mut ids);
                     (r.map(|_| None).map_err(|e| err_name(&e)), ids)
                 }
                 Case::Kl { mp, mf, mb, wlen, ids, rows, .. } => {
                     let mut ids = ids;
                     let mat: CsMat<f64> = csmat(&rows, |w| w as f64);
                     let weights = vec![1.0f64; wlen];
-                    let r = coupe::KernighanLin {
+                    let mut kl = coupe::KernighanLin {
                         max_passes: mp,
                         max_flips_per_pass: mf,
                         max_imbalance_per_flip: None,
                         max_bad_move_in_a_row: mb,
+                    };
+                    if reuse {
+                        let _ = kl.partition(&mut ids_a, (mat.view(), &weights[..]));
                     }
-                    .partition(&mut ids, (mat.view(), &weights[..]));
+                    let r = kl.partition(&mut ids, (mat.view(), &weights[..]));
                     (r.map(|_| None).map_err(|e| format!("{:?}", e)), ids)
                 }
                 Case::Fm { f64w, mi, mb, mp, mm, rows, ids, ws, .. } => {
@@ -482,12 +504,18 @@ fn run_impl(c: &Case) -> (Ran, Sweeps) {
                         max_passes: mp,
                         max_moves_per_pass: mm,
                     };
-                    let r = if f64w {
-                        let w: Vec<f64> = ws.iter().map(|&x| x as f64).collect();
-                        fm.partition(&mut ids, (mat.view(), &w[..]))
-                    } else {
-                        fm.partition(&mut ids, (mat.view(), &ws[..]))
+                    let wf: Vec<f64> = ws.iter().map(|&x| x as f64).collect();
+                    let mut call = |ids: &mut Vec<usize>| {
+                        if f64w {
+                            fm.partition(ids, (mat.view(), &wf[..]))
+                        } else {
+                            fm.partition(ids, (mat.view(), &ws[..]))
+                        }
                     };
+                    if reuse {
+                        let _ = call(&mut ids_a);
+                    }
+                    let r = call(&mut ids);
                     (
                         r.map(|md| Some((md.moves_per_pass.clone(), md.rewinded_moves_per_pass.clone())))
                             .map_err(|e| err_name(&e)),
@@ -498,12 +526,18 @@ fn run_impl(c: &Case) -> (Ran, Sweeps) {
                     let mut ids = ids;
                     let mat: CsMat<i64> = csmat(&rows, |w| w);
                     let mut a = coupe::ArcSwap { max_imbalance: mi };
-                    let r = if f64w {
-                        let w: Vec<f64> = ws.iter().map(|&x| x as f64).collect();
-                        a.partition(&mut ids, (mat.view(), &w[..])).map(|_| ())
-                    } else {
-                        a.partition(&mut ids, (mat.view(), &ws[..])).map(|_| ())
+                    let wf: Vec<f64> = ws.iter().map(|&x| x as f64).collect();
+                    let mut call = |ids: &mut Vec<usize>| {
+                        if f64w {
+                            a.partition(ids, (mat.view(), &wf[..])).map(|_| ())
+                        } else {
+                            a.partition(ids, (mat.view(), &ws[..])).map(|_| ())
+                        }
                     };
+                    if reuse {
+                        let _ = call(&mut ids_a);
+                    }
+                    let r = call(&mut ids);
                     (r.map(|_| None).map_err(|e| err_name(&e)), ids)
                 }
                 Case::KMeans { dim, tol, delta, max_iter, max_balance_iter, erode, mbr, ids, coords, ws, .. } => {
@@ -522,11 +556,19 @@ fn run_impl(c: &Case) -> (Ran, Sweeps) {
                     if dim == 2 {
                         let pts: Vec<coupe::Point2D> =
                             (0..ids.len()).map(|i| coupe::Point2D::new(x(2 * i), x(2 * i + 1))).collect();
+                        if reuse {
+                            km.partition(&mut ids_a, (&pts[..], &w[..])).unwrap();
+                            forget();
+                        }
                         km.partition(&mut ids, (&pts[..], &w[..])).unwrap();
                     } else {
                         let pts: Vec<coupe::Point3D> = (0..ids.len())
                             .map(|i| coupe::Point3D::new(x(3 * i), x(3 * i + 1), x(3 * i + 2)))
                             .collect();
+                        if reuse {
+                            km.partition(&mut ids_a, (&pts[..], &w[..])).unwrap();
+                            forget();
+                        }
                         km.partition(&mut ids, (&pts[..], &w[..])).unwrap();
                     }
                     (Ok(None), ids)
@@ -663,27 +705,102 @@ pub fn run_op(ctx: &mut Ctx, op: &str) {
     if ctx.hang_limit_reached() {
         return;
     }
-    let Some(c) = parse_op(op) else {
+    let op = op.trim();
+    if op.starts_with("large ") {
+        run_large(ctx, op);
+        return;
+    }
+    let (reuse, rest) = match op.strip_prefix("reuse ") {
+        Some(r) => (true, r),
+        None => (false, op),
+    };
+    let Some(c) = parse_op(rest) else {
         ctx.record(op.to_string(), "bad-op".into(), false);
         return;
     };
-    run_case(ctx, &c);
+    run_case_m(ctx, &c, None, reuse);
 }
 
 /// Runs one case; returns the implementation's id array when it returned `Ok`.
 fn run_case(ctx: &mut Ctx, c: &Case) -> Option<Vec<usize>> {
+    run_case_m(ctx, c, None, false)
+}
+
+/// At most 40 entries of an id array (messages stay short on large inputs).
+fn show(ids: &[usize]) -> String {
+    if ids.len() <= 40 {
+        format!("{:?}", ids)
+    } else {
+        format!("{:?}… ({} entries)", &ids[..40], ids.len())
+    }
+}
+
+fn fnv(ids: &[usize]) -> u64 {
+    let mut h = 0xcbf2_9ce4_8422_2325u64;
+    for &i in ids {
+        h = (h ^ i as u64).wrapping_mul(0x1000_0000_01b3);
+    }
+    h
+}
+
+/// `label`: the op text to record instead of the expanded op (large recipe cases; the canonical
+/// output is then a digest).  `reuse`: see `run_impl`; the result must not depend on the history of
+/// the algorithm value (compared with a fresh value where the algorithm is deterministic).
+fn run_case_m(ctx: &mut Ctx, c: &Case, label: Option<String>, reuse: bool) -> Option<Vec<usize>> {
+    if ctx.hang_limit_reached() {
+        return None;
+    }
     let c = c.clone();
     let algo = c.algo();
-    let base = format_op(&c);
+    let mut large = label.is_some();
     let in_contract = contract(&c);
     let ids0 = c.ids().to_vec();
     let n = ids0.len();
     let max0 = ids0.iter().copied().max().unwrap_or(0);
-    let (ran, sweeps) = run_impl(&c);
+    // which ids the input uses (ids beyond 2^20 are outside the contract anyway)
+    let mut in_input = vec![false; max0.min(1 << 20) + 1];
+    for &i in &ids0 {
+        if i < in_input.len() {
+            in_input[i] = true;
+        }
+    }
+    let uses = |i: usize| i < in_input.len() && in_input[i];
+    let (ran, sweeps) = run_impl(&c, reuse);
+    if reuse {
+        ctx.count(&format!("reuse:{}", algo));
+    }
+    if large {
+        // a large case is recorded with its full op (and compared exactly with the Lean model) when
+        // the compiled model runs it in a few seconds: VnFirst always (0.2 s at 70 001 elements),
+        // VnBest when moves x n stays small (3 s at 20 001 elements and 93 moves), KMeans up to
+        // 8193 points and 10 sweeps (2 s with 64 clusters); FM (tie search), KL (minutes at 2049
+        // vertices) and ArcSwap (C05's seq op stops at 64 vertices) are oracle only
+        let cheap = match (&c, &ran) {
+            (Case::Vn { best: false, .. }, _) => true,
+            (Case::Vn { best: true, .. }, Ran::Ok(ids, _)) => {
+                ids.iter().zip(&ids0).filter(|(a, b)| a != b).count() * n <= 2_000_000
+            }
+            (Case::KMeans { .. }, Ran::Ok(..)) => n <= 8193 && sweeps.len() <= 10,
+            (Case::Fm { .. } | Case::Kl { .. }, _) => n <= 12,
+            (Case::ArcSwap { threads, .. }, _) => n <= 64 && *threads == 1,
+            _ => false,
+        };
+        ctx.count(if cheap { "large:model:compared-exactly" } else { "large:model:skip(oracle only)" });
+        if cheap {
+            large = false;
+        }
+    }
+    let base = match (&label, large) {
+        (Some(l), true) => l.clone(),
+        _ => format!("{}{}", if reuse { "reuse " } else { "" }, format_op(&c)),
+    };
+    let was_large = label.is_some();
     let mut verdict: Option<(String, String)> = None;
     let mut suffix = String::new();
     if let Case::KMeans { .. } = c {
-        suffix = format!(" => {}", encode_sweeps(&ids0, &sweeps));
+        if !large {
+            suffix = format!(" => {}", encode_sweeps(&ids0, &sweeps));
+        }
         ctx.count(&format!(
             "kmeans:sweeps:{}",
             match sweeps.len() {
@@ -694,31 +811,39 @@ fn run_case(ctx: &mut Ctx, c: &Case) -> Option<Vec<usize>> {
                 _ => ">50",
             }
         ));
-    }
-    if let Case::KMeans { .. } = c {
         // the K5 situation: after some sweep a centre id owns no point
-        let emptied = sweeps.iter().any(|(a, cids)| cids.iter().any(|cid| !a.contains(cid)));
+        let emptied = sweeps.iter().any(|(a, cids)| {
+            let mut seen = vec![false; max0 + 1];
+            for &i in a {
+                if i <= max0 {
+                    seen[i] = true;
+                }
+            }
+            cids.iter().any(|&cid| cid > max0 || !seen[cid])
+        });
         ctx.count(if emptied { "kmeans:some-cluster-emptied" } else { "kmeans:no-cluster-emptied" });
+        if was_large {
+            ctx.count(if emptied { "large:kmeans:some-cluster-emptied" } else { "large:kmeans:no-cluster-emptied" });
+            ctx.count(&format!("large:kmeans:sweeps:{}", sweeps.len().min(9)));
+        }
     }
     let out = match &ran {
         Ran::Ok(ids, md) => {
-            if let Some((mv, rw)) = md {
+            if let (Some((mv, rw)), false) = (md, large) {
                 suffix = format!(" => {} | {} | {}", list(ids), list(mv), list(rw));
             }
-            // ORACLE (independent of any model): only relabelled, within the input's range
+            // ORACLE (independent of any model, O(n)): only relabelled, within the input's range
             if ids.len() != n {
                 verdict = Some((format!("length-changed@{}", algo), format!("{} ids in, {} out", n, ids.len())));
             } else if let Some(p) = ids.iter().position(|&i| i > max0) {
                 verdict = Some((
                     format!("id-out-of-range@{}", algo),
-                    format!("element {} got id {} > largest input id {} (ids {:?})", p, ids[p], max0, ids),
+                    format!("element {} got id {} > largest input id {} (ids {})", p, ids[p], max0, show(ids)),
                 ));
-            } else if matches!(c, Case::Fm { .. } | Case::Kl { .. })
-                && ids.iter().any(|i| !ids0.contains(i))
-            {
+            } else if matches!(c, Case::Fm { .. } | Case::Kl { .. }) && ids.iter().any(|&i| !uses(i)) {
                 verdict = Some((
                     format!("id-out-of-range@{}", algo),
-                    format!("two-way algorithm wrote a label the input does not use: {:?} -> {:?}", ids0, ids),
+                    format!("two-way algorithm wrote a label the input does not use: {} -> {}", show(&ids0), show(ids)),
                 ));
             }
             if let Case::KMeans { .. } = c {
@@ -728,22 +853,59 @@ fn run_case(ctx: &mut Ctx, c: &Case) -> Option<Vec<usize>> {
                 if last != &ids[..] && verdict.is_none() {
                     verdict = Some((
                         "kmeans-final-differs-from-last-sweep".into(),
-                        format!("last sweep {:?}, returned {:?}", last, ids),
+                        format!("last sweep {}, returned {}", show(last), show(ids)),
                     ));
                 }
+                let mut s0 = ids0.clone();
+                s0.sort();
+                s0.dedup();
                 for (k, (a, cids)) in sweeps.iter().enumerate() {
-                    let bad_a = a.iter().any(|i| !ids0.contains(i));
+                    let bad_a = a.iter().any(|&i| !uses(i));
                     let mut s1 = cids.clone();
                     s1.sort();
-                    let mut s0 = ids0.clone();
-                    s0.sort();
-                    s0.dedup();
                     if (bad_a || s1 != s0) && verdict.is_none() {
                         verdict = Some((
                             "kmeans-sweep-foreign-id".into(),
-                            format!("sweep {}: assignments {:?}, center_ids {:?}, input {:?}", k, a, cids, ids0),
+                            format!("sweep {}: assignments {}, center_ids {:?}, input {}", k, show(a), cids, show(&ids0)),
                         ));
                     }
+                }
+            }
+            if reuse && verdict.is_none() {
+                // same input => same output, whatever the algorithm value did before; compared with a
+                // fresh value where the result is deterministic (FM: HashSet order; parallel f64 sums
+                // of KMeans and free-running ArcSwap only in a single-worker pool)
+                let deterministic = match &c {
+                    Case::Vn { .. } | Case::Kl { .. } => true,
+                    Case::Fm { .. } => false,
+                    Case::ArcSwap { threads, .. } | Case::KMeans { threads, .. } => *threads == 1,
+                };
+                if deterministic {
+                    ctx.count("reuse:compared-with-fresh-value");
+                    match run_impl(&c, false).0 {
+                        Ran::Ok(fresh, _) => {
+                            if &fresh != ids {
+                                let p = fresh.iter().zip(ids.iter()).position(|(a, b)| a != b).unwrap_or(0);
+                                verdict = Some((
+                                    format!("reuse-differs@{}", algo),
+                                    format!(
+                                        "second use of the same algorithm value gives {} but a fresh value gives {} (first difference at element {})",
+                                        show(ids),
+                                        show(&fresh),
+                                        p
+                                    ),
+                                ));
+                            }
+                        }
+                        _ => {
+                            verdict = Some((
+                                format!("reuse-differs@{}", algo),
+                                "the fresh algorithm value did not return Ok".into(),
+                            ));
+                        }
+                    }
+                } else {
+                    ctx.count("reuse:oracle-only(nondeterministic)");
                 }
             }
             if ids != &ids0 {
@@ -751,7 +913,12 @@ fn run_case(ctx: &mut Ctx, c: &Case) -> Option<Vec<usize>> {
             } else {
                 ctx.count(&format!("{}:unchanged", algo));
             }
-            format!("ok {}", join(ids)).trim_end().to_string()
+            if large {
+                let changed = ids.iter().zip(&ids0).filter(|(a, b)| a != b).count();
+                format!("ok n={} changed={} fnv={:016x}", ids.len(), changed, fnv(ids))
+            } else {
+                format!("ok {}", join(ids)).trim_end().to_string()
+            }
         }
         Ran::Err(e) => {
             verdict = Some((format!("unexpected-error@{}", algo), format!("Err({}) on an input inside the contract", e)));
@@ -762,7 +929,7 @@ fn run_case(ctx: &mut Ctx, c: &Case) -> Option<Vec<usize>> {
             format!("panic {}", m)
         }
         Ran::Hang => {
-            verdict = Some((format!("hang@{}", algo), "watchdog (20 s)".into()));
+            verdict = Some((format!("hang@{}", algo), "watchdog (60 s)".into()));
             "hang".to_string()
         }
     };
@@ -786,6 +953,250 @@ fn run_case(ctx: &mut Ctx, c: &Case) -> Option<Vec<usize>> {
         Ran::Ok(ids, _) => Some(ids),
         _ => None,
     }
+}
+
+// ------------------------------------------------------------------ large / corner recipes
+
+/// `large <algo> <threads> <n> <k> <order> <variant> <reuse 0|1> <seed>`: a case described by its
+/// recipe (the op line stays short; the expansion below is deterministic in the line's fields).
+///  order   `blocked` (ids ascending, k equal blocks) | `runs` (ascending runs of 4096 ids – shorter
+///          when n < 4096 k – cycling through the parts) | `random`
+///  variant selects weights / graph / point set / settings (see `expand_large`)
+fn run_large(ctx: &mut Ctx, op: &str) {
+    let t: Vec<&str> = op.split_whitespace().collect();
+    let parsed = (|| {
+        if t.len() != 9 {
+            return None;
+        }
+        let algo = t[1];
+        let threads: usize = t[2].parse().ok()?;
+        let n: usize = t[3].parse().ok()?;
+        let k: usize = t[4].parse().ok()?;
+        let order = t[5];
+        let variant: usize = t[6].parse().ok()?;
+        let reuse = match t[7] {
+            "0" => false,
+            "1" => true,
+            _ => return None,
+        };
+        let seed: u64 = t[8].parse().ok()?;
+        if threads < 1 || threads > 16 || n < 2 || n > 400_000 || k < 2 || k > n || k > 4096 {
+            return None;
+        }
+        Some((expand_large(algo, threads, n, k, order, variant, seed)?, reuse))
+    })();
+    let Some((c, reuse)) = parsed else {
+        ctx.record(op.to_string(), "bad-op".into(), false);
+        return;
+    };
+    let n = c.ids().len();
+    ctx.count(&format!(
+        "large:{}",
+        match n {
+            0..=4096 => "n<=4096",
+            4097..=8192 => "4097..8192",
+            8193..=16384 => "8193..16384",
+            16385..=65536 => "16385..65536",
+            _ => ">65536",
+        }
+    ));
+    ctx.count(&format!("large:{}:{}", c.algo(), t[5]));
+    ctx.count(&format!("large:threads:{}", t[2]));
+    if t[4].parse::<usize>().map(|k| k >= 63).unwrap_or(false) {
+        ctx.count(&format!("corner:parts:{}", t[4]));
+    }
+    let t0 = std::time::Instant::now();
+    // `C02_EXPAND=1` records the expanded op instead of the recipe (to time the model by hand)
+    let label = if std::env::var("C02_EXPAND").is_ok() { None } else { Some(op.to_string()) };
+    run_case_m(ctx, &c, label, reuse);
+    if std::env::var("C02_TIMES").is_ok() {
+        eprintln!("{:6.2}s {}", t0.elapsed().as_secs_f64(), op);
+    }
+    if t0.elapsed().as_secs() >= 10 {
+        ctx.count("large:slower-than-10s");
+    }
+}
+
+fn large_ids(rng: &mut Rng, n: usize, k: usize, order: &str) -> Option<Vec<usize>> {
+    let mut ids: Vec<usize> = match order {
+        "blocked" => (0..n).map(|i| i * k / n).collect(),
+        "runs" => {
+            let mut r = 4096usize;
+            while r > 1 && r * k > n {
+                r /= 2;
+            }
+            (0..n).map(|i| (i / r) % k).collect()
+        }
+        "random" => (0..n).map(|_| rng.usize(k)).collect(),
+        _ => return None,
+    };
+    // every id is used (a no-op except for tiny n / random order)
+    let mut cnt = vec![0usize; k];
+    for &i in &ids {
+        cnt[i] += 1;
+    }
+    for p in 0..k {
+        if cnt[p] == 0 {
+            let q = (0..n).find(|&q| cnt[ids[q]] >= 2)?;
+            cnt[ids[q]] -= 1;
+            ids[q] = p;
+            cnt[p] = 1;
+        }
+    }
+    Some(ids)
+}
+
+/// weights: 0 unit | 1 random 0..=1000 | 2 huge (total just below 2^61 for the integer types, just
+/// below 2^53 for f64 – sums still exact / without overflow) | 3 many zeros
+fn large_weights(rng: &mut Rng, n: usize, shape: usize, f64w: bool) -> Vec<i64> {
+    match shape % 4 {
+        0 => vec![1; n],
+        1 => (0..n).map(|_| rng.range(0, 1000)).collect(),
+        2 => {
+            let top: i64 = if f64w { 1 << 52 } else { 1 << 60 };
+            let each = top / n as i64;
+            (0..n).map(|_| each - rng.range(0, 1000)).collect()
+        }
+        _ => (0..n).map(|_| if rng.chance(1, 4) { rng.range(1, 9) } else { 0 }).collect(),
+    }
+}
+
+/// graph: 0 grid numbered row by row, rows of 4096 vertices (64 when n < 8192), last row partial
+///        | 1 path + one random chord per vertex (edge weights 1..=3)
+fn large_graph(rng: &mut Rng, n: usize, shape: usize) -> Rows {
+    let mut rows: Rows = vec![vec![]; n];
+    let mut add = |rows: &mut Rows, u: usize, v: usize, w: i64| {
+        if u != v && !rows[u].iter().any(|(x, _)| *x == v) {
+            rows[u].push((v, w));
+            rows[v].push((u, w));
+        }
+    };
+    if shape % 2 == 0 {
+        let b = if n >= 8192 { 4096 } else { 64 };
+        for v in 0..n {
+            if (v + 1) % b != 0 && v + 1 < n {
+                add(&mut rows, v, v + 1, 1);
+            }
+            if v + b < n {
+                add(&mut rows, v, v + b, 1);
+            }
+        }
+    } else {
+        for v in 1..n {
+            let w = rng.range(1, 3);
+            add(&mut rows, v, v - 1, w);
+            let u = rng.usize(n);
+            let w = rng.range(1, 3);
+            add(&mut rows, v, u, w);
+        }
+    }
+    for r in rows.iter_mut() {
+        r.sort();
+    }
+    rows
+}
+
+fn expand_large(algo: &str, threads: usize, n: usize, k: usize, order: &str, variant: usize, seed: u64) -> Option<Case> {
+    let mut rng = Rng::new(seed ^ 0xC02_1A26E);
+    let ids = large_ids(&mut rng, n, k, order)?;
+    let v = variant;
+    Some(match algo {
+        "vnbest" | "vnfirst" => {
+            let ty = ["i64", "u64", "f64"][(v / 4) % 3];
+            let ws = large_weights(&mut rng, n, v, ty == "f64");
+            Case::Vn { best: algo == "vnbest", ty: ty.into(), threads, ws, ids }
+        }
+        "kl" => {
+            if k != 2 {
+                return None;
+            }
+            let rows = large_graph(&mut rng, n, v);
+            Case::Kl {
+                threads,
+                mp: Some(1 + (v / 2) % 2),
+                mf: if (v / 4) % 2 == 0 { None } else { Some(100) },
+                mb: 1,
+                wlen: n,
+                ids,
+                rows,
+            }
+        }
+        "fm" => {
+            if k != 2 {
+                return None;
+            }
+            let rows = large_graph(&mut rng, n, v);
+            let f64w = (v / 8) % 2 == 1;
+            let ws = large_weights(&mut rng, n, v / 2, f64w);
+            Case::Fm {
+                threads,
+                f64w,
+                mi: if (v / 16) % 2 == 0 { None } else { Some(0.1) },
+                mb: if (v / 32) % 2 == 0 { 1 } else { 50 },
+                mp: Some(1 + (v / 64) % 2),
+                mm: None,
+                rows,
+                ids,
+                ws,
+            }
+        }
+        "arcswap" => {
+            let rows = large_graph(&mut rng, n, v);
+            let f64w = (v / 8) % 2 == 1;
+            let ws = large_weights(&mut rng, n, v / 2, f64w);
+            Case::ArcSwap { threads, f64w, mi: if (v / 16) % 2 == 0 { None } else { Some(0.1) }, rows, ids, ws }
+        }
+        "kmeans2" | "kmeans3" => {
+            let dim = if algo == "kmeans2" { 2 } else { 3 };
+            let mut coords = Vec::with_capacity(n * dim);
+            match v % 3 {
+                0 => {
+                    // concentric rings around the origin, ring = the point's own part: every centre
+                    // is (nearly) the origin, so whole clusters lose all their points in a sweep
+                    for (i, &p) in ids.iter().enumerate() {
+                        let r = 100.0 * (p + 1) as f64;
+                        let a = i as f64 * 2.399963229728653; // golden angle
+                        coords.push((r * a.cos() * 16.0).round() as i64);
+                        coords.push((r * a.sin() * 16.0).round() as i64);
+                        if dim == 3 {
+                            coords.push(0);
+                        }
+                    }
+                }
+                1 => {
+                    for _ in 0..n * dim {
+                        coords.push(rng.range(0, 1 << 20));
+                    }
+                }
+                _ => {
+                    // lattice numbered row by row, rows of 4096 points
+                    for i in 0..n as i64 {
+                        coords.push((i % 4096) * 16);
+                        coords.push((i / 4096) * 16);
+                        if dim == 3 {
+                            coords.push(((i * 7) % 5) * 16);
+                        }
+                    }
+                }
+            }
+            let ws = large_weights(&mut rng, n, if (v / 3) % 2 == 0 { 0 } else { 1 }, true);
+            Case::KMeans {
+                dim,
+                threads,
+                // the balance loop never meets its tolerance: every sweep of max_balance_iter runs
+                tol: if (v / 6) % 2 == 0 { 0.0 } else { 1e-9 },
+                delta: 0.0,
+                max_iter: (v / 12) % 2,
+                max_balance_iter: [3usize, 1, 5][(v / 24) % 3],
+                erode: false, // max_distance is quadratic in the cluster size
+                mbr: (v / 72) % 2 == 1,
+                ids,
+                coords,
+                ws,
+            }
+        }
+        _ => return None,
+    })
 }
 
 fn with_ids(c: &Case, new_ids: Vec<usize>) -> Case {
@@ -1293,6 +1704,8 @@ pub fn generate(ctx: &mut Ctx) {
         let c = gen_kmeans(ctx, true);
         run_op(ctx, &format_op(&c));
     }
+    // (2c) LARGE / CORNER / REUSE stream: size-gated and corner-gated code paths ---------------
+    large_stream(ctx);
     // (3) a small stream outside the contract (the models' abort paths; no oracle) -----------
     for _ in 0..ctx.budget(20, 200) {
         // KMeans on a partition with an unused id
@@ -1327,4 +1740,157 @@ pub fn generate(ctx: &mut Ctx) {
             run_op(ctx, &format_op(&Case::Fm { threads, f64w, mi, mb, mp, mm, rows, ids, ws }));
         }
     }
+}
+
+
+fn large_op(algo: &str, threads: usize, n: usize, k: usize, order: &str, variant: usize, reuse: bool, seed: u64) -> String {
+    format!("large {} {} {} {} {} {} {} {}", algo, threads, n, k, order, variant, reuse as u8, seed)
+}
+
+/// Sizes just above the usual block thresholds and far above them, none a multiple of a power of
+/// two; pools 1/2/3/16; ids in blocks, in block-aligned runs of 4096 and in random order; 2..8 and 64
+/// parts; part-count corners; huge weights; reuse of one algorithm value for two calls.
+fn large_stream(ctx: &mut Ctx) {
+    const ORDERS: [&str; 3] = ["blocked", "runs", "random"];
+    const POOLS: [usize; 4] = [1, 2, 3, 16];
+    // --- fixed handful for every run (quick: these only) ---
+    let s0 = ctx.rng.below(1 << 40);
+    let v = ctx.rng.usize(1 << 12);
+    let core: Vec<String> = vec![
+        large_op("vnbest", 16, 20001, 8, "random", v, false, s0 + 1),
+        large_op("vnbest", 3, 8193, 64, "runs", 6, true, s0 + 2),
+        large_op("vnfirst", 2, 70001, 5, "random", v / 3, false, s0 + 3),
+        large_op("vnfirst", 16, 8193, 64, "blocked", 2, true, s0 + 4),
+        // concentric rings, 64 clusters, max_iter 0, three balance sweeps that never meet the tolerance
+        large_op("kmeans2", 2, 20001, 64, "blocked", 0, false, s0 + 5),
+        large_op("kmeans3", 16, 8193, 5, "runs", 14, false, s0 + 6),
+        large_op("kmeans2", 1, 8193, 7, "random", 12, true, s0 + 7),
+        large_op("fm", 1, 8193, 2, "runs", 2 * (v % 64), false, s0 + 8),
+        large_op("fm", 3, 20001, 2, "random", 1 + 2 * (v % 32), false, s0 + 9),
+        large_op("arcswap", 3, 20001, 8, "runs", 2 * (v % 16), false, s0 + 10),
+        large_op("arcswap", 16, 4097, 64, "random", 1, false, s0 + 11),
+        large_op("arcswap", 1, 4097, 2, "blocked", 3, true, s0 + 12),
+        // KernighanLin is quadratic (n/2 flips per pass, each a scan of all vertices): 4097 here,
+        // 8193 / 20 001 in the thorough tier are the largest feasible sizes
+        large_op("kl", 2, 4097, 2, "random", 1, false, s0 + 13),
+        large_op("kl", 1, 2049, 2, "runs", 0, true, s0 + 14),
+        // thousands of parts / part-count corners on mid-size inputs
+        large_op("vnbest", 2, 8193, 3000, "random", 1, false, s0 + 15),
+        large_op("kmeans2", 2, 4097, 257, "random", 1, false, s0 + 16),
+        large_op("arcswap", 2, 2049, 256, "random", 1, false, s0 + 17),
+    ];
+    for op in &core {
+        run_op(ctx, op);
+    }
+    // --- part-count corners and huge weights on small inputs (models compared where they exist) ---
+    for &k in &[63usize, 64, 65, 128, 255, 256, 257] {
+        let n = k + ctx.rng.usize(40);
+        let s = ctx.rng.below(1 << 40);
+        let v = ctx.rng.usize(1 << 12);
+        let o = *ctx.rng.pick(&ORDERS);
+        let t = *ctx.rng.pick(&POOLS);
+        run_op(ctx, &large_op("vnbest", t, n, k, o, v, false, s));
+        run_op(ctx, &large_op("vnfirst", t, n, k, o, v, false, s + 1));
+        run_op(ctx, &large_op(if v % 2 == 0 { "kmeans2" } else { "kmeans3" }, t, n + 13, k, o, v, false, s + 2));
+        run_op(ctx, &large_op("arcswap", t, n + 50, k, o, v, false, s + 3));
+    }
+    for &(n, k) in &[(2usize, 2usize), (3, 2), (3, 3), (17, 3), (50, 8)] {
+        for v in [2usize, 6, 10] {
+            // v % 4 = 2: totals just below 2^60 (i64, u64) / 2^52 (f64)
+            ctx.count("corner:huge-weights");
+            let s = ctx.rng.below(1 << 40);
+            run_op(ctx, &large_op("vnbest", 1, n, k, "random", v, false, s));
+            run_op(ctx, &large_op("vnfirst", 2, n, k, "blocked", v, false, s + 1));
+        }
+        ctx.count("corner:huge-weights");
+        let s = ctx.rng.below(1 << 40);
+        // FM / ArcSwap: weights shape = (variant / 2) % 4
+        run_op(ctx, &large_op("fm", 1, n.max(2), 2, "random", 4, false, s));
+        run_op(ctx, &large_op("fm", 1, n.max(2), 2, "random", 4 + 8, false, s + 1));
+        run_op(ctx, &large_op("arcswap", 1, n, k, "random", 4, false, s + 2));
+    }
+    // --- reuse of one algorithm value for two calls, small inputs, all six ---
+    for i in 0..ctx.budget(120, 2400) {
+        let c = match i % 6 {
+            0 => gen_vn(ctx, true),
+            1 => gen_vn(ctx, false),
+            2 => gen_kl(ctx),
+            3 => gen_fm(ctx),
+            4 => gen_arcswap(ctx, false),
+            _ => gen_kmeans(ctx, false),
+        };
+        run_case_m(ctx, &c, None, true);
+    }
+    if ctx.quick() {
+        ctx.notes.push(
+            "large/corner stream (quick): 17 recipe cases with 2049..70001 elements (KL: 4097, quadratic) + 28 \
+             part-count corners + 30 huge-weight corners + 120 reuse cases"
+                .into(),
+        );
+        return;
+    }
+    // --- thorough: more sizes, up to 140 003 elements ---
+    let sizes_fast: [usize; 8] = [4097, 8193, 16422, 20001, 65548, 70001, 131077, 140003];
+    let ks: [usize; 8] = [2, 3, 5, 7, 8, 64, 64, 6];
+    for algo in ["vnbest", "vnfirst", "kmeans2", "kmeans3"] {
+        for i in 0..12 {
+            let n = sizes_fast[(i + ctx.rng.usize(2)) % 8];
+            let k = *ctx.rng.pick(&ks);
+            let op = large_op(
+                algo,
+                *ctx.rng.pick(&POOLS),
+                n,
+                k,
+                ORDERS[i % 3],
+                ctx.rng.usize(1 << 12),
+                i % 5 == 4 && n <= 20001,
+                ctx.rng.below(1 << 40),
+            );
+            run_op(ctx, &op);
+        }
+    }
+    // FM: ~1.5 s at 20 001, ~16 s at 70 001, ~30 s at 140 003 vertices (two passes)
+    for (i, &n) in [4097usize, 8193, 16422, 20001, 20001, 65548, 70001, 140003].iter().enumerate() {
+        let op = large_op("fm", POOLS[i % 4], n, 2, ORDERS[i % 3], ctx.rng.usize(1 << 12), i == 1, ctx.rng.below(1 << 40));
+        run_op(ctx, &op);
+    }
+    // ArcSwap: the row-numbered grid is fast at every size; the random sparse graph with many parts
+    // takes ~7 s at 20 001 vertices, so it stops there
+    for (i, &n) in [4097usize, 8193, 16422, 20001, 65548, 70001, 131077, 140003].iter().enumerate() {
+        let k = *ctx.rng.pick(&ks);
+        let op = large_op("arcswap", POOLS[i % 4], n, k, ORDERS[i % 3], 2 * ctx.rng.usize(1 << 11), false, ctx.rng.below(1 << 40));
+        run_op(ctx, &op);
+    }
+    for (i, &n) in [4097usize, 8193, 16422, 20001].iter().enumerate() {
+        let k = *ctx.rng.pick(&ks);
+        let op = large_op(
+            "arcswap",
+            POOLS[(i + 1) % 4],
+            n,
+            k,
+            ORDERS[(i + 1) % 3],
+            1 + 2 * ctx.rng.usize(1 << 11),
+            i == 0,
+            ctx.rng.below(1 << 40),
+        );
+        run_op(ctx, &op);
+    }
+    // KL: quadratic – 8193 (~2 s) and once 20 001 (max_passes 1)
+    for (i, &n) in [4097usize, 8193, 8193, 16422, 20001].iter().enumerate() {
+        let v = if n > 10000 { 4 * ctx.rng.usize(8) + (i % 2) } else { ctx.rng.usize(64) };
+        let op = large_op("kl", POOLS[i % 4], n, 2, ORDERS[i % 3], v, i == 0, ctx.rng.below(1 << 40));
+        run_op(ctx, &op);
+    }
+    // thousands of parts
+    for (algo, n, k) in [("vnbest", 20001usize, 4096usize), ("vnfirst", 70001, 4096), ("kmeans2", 8193, 2000), ("arcswap", 8193, 1000)] {
+        ctx.count("corner:thousands-of-parts");
+        let op = large_op(algo, *ctx.rng.pick(&POOLS), n, k, "random", ctx.rng.usize(1 << 12), false, ctx.rng.below(1 << 40));
+        run_op(ctx, &op);
+    }
+    ctx.notes.push(
+        "large/corner stream (thorough): the quick stream + 48 Vn/KMeans cases with 4097..140003 elements, 8 FM \
+         (to 140003), 12 ArcSwap (grid to 140003, random sparse to 20001), 5 KL (to 20001: quadratic), 4 cases \
+         with 1000..4096 parts, 2400 reuse cases"
+            .into(),
+    );
 }
